@@ -50,6 +50,14 @@ def build_traces(rng, nconn):
     for c in range(nconn):
         cip, sip = (10, 1, c // 200, 1 + c % 200), (10, 2, 0, 1 + c % 3)
         cp, sp = 20000 + c, 80
+        # endpoint shapes: client address below / above the server's, both ends on one address (loopback, hairpin), equal ports
+        shape = c % 4
+        if shape == 1:
+            cip = (10, 3, c // 200, 1 + c % 200)
+        elif shape == 2:
+            cip = sip = (127, 0, c // 200, 1 + c % 200)
+        elif shape == 3:
+            cp = 80
         ic, is_ = rng.randrange(M32), rng.randrange(M32)
         ts = lambda v, e: b"\x01\x01\x08\x0a" + v.to_bytes(4, "big") + e.to_bytes(4, "big")
         synopts = b"\x02\x04\x05\xb4\x04\x02\x08\x0a" + (1000 + c).to_bytes(4, "big") + b"\x00\x00\x00\x00\x01\x03\x03\x07"
@@ -64,8 +72,9 @@ def build_traces(rng, nconn):
                  frame(sip, cip, sp, cp, is_ + 1, ic + 1 + len(R), 0x18, S, ipid=nid())]
         H = hello("host%d.example" % c)
         c1, c2 = sorted(rng.sample(range(5, len(H)), 2))
-        tlsc = [frame(cip, sip, cp, 443, ic + 1, is_ + 1, 0x18, H[:c1], ipid=nid()), frame(cip, sip, cp, 443, ic + 1 + c1, is_ + 1, 0x18, H[c1:c2], ipid=nid()),
-                frame(cip, sip, cp, 443, ic + 1 + c2, is_ + 1, 0x18, H[c2:], ipid=nid())]
+        tp = 443 if shape == 3 else cp
+        tlsc = [frame(cip, sip, tp, 443, ic + 1, is_ + 1, 0x18, H[:c1], ipid=nid()), frame(cip, sip, tp, 443, ic + 1 + c1, is_ + 1, 0x18, H[c1:c2], ipid=nid()),
+                frame(cip, sip, tp, 443, ic + 1 + c2, is_ + 1, 0x18, H[c2:], ipid=nid())]
         conns.append({"tcp": tcpc, "http": httpc, "tls": tlsc})
     for crate in traces:
         ptr = [0] * nconn
